@@ -42,7 +42,7 @@ CFG = {
             "supersession) is replayed first. Distinct = distinct (operation, output) lines; non-trivial = the output is a "
             "full agent state digest (not bad-op / ended).",
     "translated": ["Agent.AddRemoteCandidate", "Agent.addRemoteCandidate", "candidateBase.transportAddressEqual",
-                   "candidateBase.Equal"],
+                   "candidateBase.Equal", "Agent.Restart (task body)"],
     "trusted_base": ["STUN decoding and MESSAGE-INTEGRITY are modelled as perfect",
                      "the harness digest prints checklist, candidate lists, selection, pending count after every operation"],
     "assumptions": ["theorems quantify over all event lists from a fresh agent (Init: empty checklist, candidate lists, caches; "
